@@ -49,6 +49,13 @@ uint64_t varintBitReaderRead(varintBitReader *r, size_t nBits) {
         size_t byteIdx = r->bitPos / 8;
         size_t bitIdx = 7 - (r->bitPos % 8); /* MSB first */
 
+        /* Bits at or beyond totalBits do not exist: read them as zero
+         * without touching memory past the declared input */
+        if (r->bitPos >= r->totalBits) {
+            r->bitPos++;
+            continue;
+        }
+
         if ((r->buffer[byteIdx] >> bitIdx) & 1) {
             result |= (1ULL << (nBits - 1 - i));
         }
